@@ -4,7 +4,7 @@ import json, os, re, shutil, subprocess, sys, time, hashlib, glob
 from concurrent.futures import ThreadPoolExecutor
 
 VERIF = '/verif'
-REPO = '/repo'
+REPO = os.environ.get('VERIF_REPO', '/repo')   # registered checks always use /repo; VERIF_REPO is for experiments only
 SPEC = f'{VERIF}/spec'
 GOENV = dict(os.environ, GOFLAGS='-mod=mod', GOPROXY='off', GOSUMDB='off', GOTOOLCHAIN='local')
 
@@ -59,6 +59,14 @@ class Ctx:
 def build_harness(ctx):
     """always rebuilds from /repo's current working tree with -tags verif"""
     h = f'{VERIF}/harness'
+    if REPO != '/repo':
+        # experiment against another tree: build from a private copy of the harness whose replace directive points there
+        h2 = f'{ctx.work}/harness_src'
+        shutil.rmtree(h2, ignore_errors=True)
+        shutil.copytree(h, h2)
+        gm = open(f'{h2}/go.mod').read().replace('=> /repo', f'=> {REPO}')
+        open(f'{h2}/go.mod', 'w').write(gm)
+        h = h2
     try:
         shutil.copy(f'{REPO}/go.sum', f'{h}/go.sum')
     except OSError:
